@@ -1,6 +1,7 @@
 import WellenModel.Proofs.Fst
 import WellenModel.Proofs.Canon
 import WellenModel.Proofs.FstRefine
+import WellenModel.Model.FstFile
 /-!
 # C10 — FST files load faithfully (wellen's share: what is done with the reader's callbacks)
 
@@ -124,3 +125,33 @@ example : ∃ l, runWriter (.bitvec 2) [(0, .chars [48, 49]), (1, .chars [48, 12
     l.times = [0, 1, 2] ∧ l.maxStates = .nine := ⟨_, rfl, rfl, rfl⟩
 
 end Wellen.Fst
+
+/-! ### files whose value-change blocks repeat boundary times -/
+namespace Wellen.FstFile
+open Wellen.GhwSpec
+
+theorem map_const_replicate {α β : Type} (l : List α) (t : β) : l.map (fun _ => t) = List.replicate l.length t := by
+  induction l with
+  | nil => rfl
+  | cons a r ih => simp [List.replicate_succ, ih]
+
+theorem filter_fst_length (dups : List (Nat × Bool)) (i : Nat) :
+    (dups.filter fun d => d.1 = i).length = ((dups.map (·.1)).filter (· = i)).length := by
+  induction dups with
+  | nil => rfl
+  | cons d r ih =>
+    simp only [List.filter_cons, List.map_cons]
+    by_cases h : d.1 = i <;> simp [h, ih]
+
+/-- the file-level model's time table for a file whose blocks repeat boundary times is the specification's: the file's own
+chain, every repeated position once more per repetition -/
+theorem C10_dup_chain (times : List Nat) (dups : List (Nat × Bool)) :
+    chainWithDups times dups = dupChain times (dups.map (·.1)) := by
+  unfold chainWithDups dupChain
+  congr 1
+  funext i
+  simp only [map_const_replicate, filter_fst_length]
+  rw [Nat.add_comm, List.replicate_succ]
+
+
+end Wellen.FstFile
